@@ -114,12 +114,12 @@ AttrCase(n) ==
           /\ PairSQMBits(u.s2, u.Q, u.M, v.s2, v.Q, v.M) >= 80
           /\ Near(PubS2(p, JRS[i1], ALS[k1]), PaletteS2(p, FxDiv(PubC(JRS[i1], ALS[k1]), JRS[i1])), 80)
 
-(* exact events from the published definitions: c = 1/2, A_w = 28, F_L^(1/4) = 1:
-   jr = 1/2, alpha = 64: J 25, C 32, Q 128, M 32, s 50;   jr = 1/4, alpha = 16: J 6.25, C 4, Q 64, M 4, s 25 *)
-PJ == [c |-> FxRat(1, 2), aw |-> FxInt(28), fl4 |-> FxOne]
-Full1 == <<FxInt(25), FxInt(32), FxInt(200), FxInt(128), FxInt(32), FxInt(50)>>
-Full2 == <<FxRat(25, 4), FxInt(4), FxInt(-20), FxInt(64), FxInt(4), FxInt(25)>>
-FullW == <<FxInt(100), FxInt(64), FxInt(200), FxInt(256), FxInt(64), FxInt(50)>>      \* jr = 1, alpha = 64
+(* exact events from the published definitions: c = 1/2, A_w = 28, F_L^(1/4) = 2:
+   jr = 1/2, alpha = 64: J 25, C 32, Q 256, M 64, s 50;   jr = 1/4, alpha = 16: J 6.25, C 4, Q 128, M 8, s 25 *)
+PJ == [c |-> FxRat(1, 2), aw |-> FxInt(28), fl4 |-> FxInt(2)]
+Full1 == <<FxInt(25), FxInt(32), FxInt(200), FxInt(256), FxInt(64), FxInt(50)>>
+Full2 == <<FxRat(25, 4), FxInt(4), FxInt(-20), FxInt(128), FxInt(8), FxInt(25)>>
+FullW == <<FxInt(100), FxInt(64), FxInt(200), FxInt(512), FxInt(128), FxInt(50)>>      \* jr = 1, alpha = 64
 X1 == V3(FxRat(2, 10), FxRat(3, 10), FxRat(4, 10))
 X2 == V3(FxRat(5, 100), FxRat(4, 100), FxRat(1, 100))
 Bump(xs, i, k) == [xs EXCEPT ![i] = FxAdd(@, FxShr(FxMax(FxAbs(@), FxEps(20)), k))]      \* relative 2^-k
@@ -134,74 +134,81 @@ UcsEv(J, M, h) ==
   IN [ev |-> "ucs", t |-> "f64", panic |-> 0, jmh |-> jmh, ujmh |-> ujmh, ujab |-> ujab, ujabd |-> ujab, ujmhb |-> ujmh,
       jmhb |-> jmh, jmhd |-> jmh, ujmhc |-> ujmh]
 U0 == UcsEv(FxInt(45), FxInt(39), FxInt(-101))
-JudgeCases == <<
-  (* the published definitions give exactly the attribute vectors used below *)
-  /\ PubJ(FxRat(1, 2)) = Full1[1] /\ PubC(FxRat(1, 2), FxInt(64)) = Full1[2] /\ Near(PubQ(PJ, FxRat(1, 2)), Full1[4], 95)
-  /\ PubM(PJ, FxRat(1, 2), FxInt(64)) = Full1[5] /\ Near(PubS2(PJ, FxRat(1, 2), FxInt(64)), FxSqr(Full1[6]), 80)
-  /\ PubJ(FxRat(1, 4)) = Full2[1] /\ PubC(FxRat(1, 4), FxInt(16)) = Full2[2] /\ Near(PubQ(PJ, FxRat(1, 4)), Full2[4], 95)
-  /\ PubM(PJ, FxRat(1, 4), FxInt(16)) = Full2[5] /\ Near(PubS2(PJ, FxRat(1, 4), FxInt(16)), FxSqr(Full2[6]), 80),
-  (* accepted *)
-  \A k \in DOMAIN Kinds : ConvWhy(ConvEv(Kinds[k], X1, Full1)) = "ok" /\ ConvWhy(ConvEv(Kinds[k], X2, Full2)) = "ok"
-                          /\ ConvJudged(ConvEv(Kinds[k], X1, Full1)),
-  \A k \in DOMAIN Kinds : ConvWhy(BlackEv(Kinds[k])) = "ok",
-  PairWhy(PairEv(Full1, Full2)) = "ok" /\ PairJudged(PairEv(Full1, Full2)),
-  UcsWhy(U0) = "ok" /\ UcsJudged(U0) /\ UcsWhy(UcsEv(FxZero, FxZero, FxInt(10))) = "ok" /\ UcsWhy(UcsEv(FxInt(100), FxInt(120), FxInt(359))) = "ok",
-  (* rejected, clause by clause *)
-  \A k \in DOMAIN Kinds : \A i \in 1..3 :
-     /\ ConvWhy([ConvEv(Kinds[k], X1, Full1) EXCEPT !.fback = JV(Bump(X1, i, 30))]) = "full-round-trip"
-     /\ ConvWhy([ConvEv(Kinds[k], X1, Full1) EXCEPT !.pback = JV(Bump(X1, i, 30))]) = "partial-round-trip",
-  \A k \in DOMAIN Kinds : \A i \in 1..2 :
-     /\ ConvWhy([ConvEv(Kinds[k], X1, Full1) EXCEPT !.proj = JV(Bump(FxV(@), i, 50))]) = "projection-not-exact"
-     /\ ConvWhy([ConvEv(Kinds[k], X1, Full1) EXCEPT !.part = JV(Bump(FxV(@), i, 30))]) = "from-xyz-differs-from-projection",
-  (* a partial type reading the wrong attribute: the projection of another kind *)
-  \A k \in DOMAIN Kinds : \A k2 \in DOMAIN Kinds :
-     k # k2 => ConvWhy([ConvEv(Kinds[k], X1, Full1) EXCEPT !.proj = Project(JV(Full1), Kinds[k2])]) = "projection-not-exact",
-  \A i \in MagIdx : ConvWhy([ConvEv("jch", X1, Full1) EXCEPT !.exp = JV(Bump(Full1, i, 30))]) = "into-full-differs-from-full",
-  ConvWhy([ConvEv("jch", X1, Full1) EXCEPT !.exp = JV([Full1 EXCEPT ![3] = FxInt(201)])]) = "into-full-differs-from-full",
-  (* hue 200 and -160 are the same direction *)
-  ConvWhy([ConvEv("jch", X1, Full1) EXCEPT !.exp = JV([Full1 EXCEPT ![3] = FxInt(-160)])]) = "ok",
-  (* saturation not 100 sqrt(M/Q): e.g. computed with a wrong parameter *)
-  LET f == Bump(Full1, 6, 30) IN ConvWhy(ConvEv("jsh", X1, f)) = "saturation-link",
-  ConvWhy([ConvEv("jch", X1, Full1) EXCEPT !.w = 1]) = "white-not-100"
-  /\ ConvWhy([ConvEv("jch", X1, FullW) EXCEPT !.w = 1]) = "ok",
-  ConvWhy([ConvEv("qmh", X1, Full1) EXCEPT !.panic = 1]) = "panic"
-  /\ ConvWhy([ConvEv("qmh", X1, Full1) EXCEPT !.pback = <<<<2, 0>>, <<1, 0, 1>>, <<1, 0, 1>>>>]) = "non-finite",
-  (* black: an attribute, or a returned component, that is not exactly zero *)
-  \A i \in MagIdx : ConvWhy([BlackEv("qsh") EXCEPT !.full = [@ EXCEPT ![i] = JOfFx(FxEps(90))]]) = "black-not-black",
-  ConvWhy([BlackEv("jmh") EXCEPT !.pback = JV(V3(FxZero, FxEps(90), FxZero))]) = "black-not-black"
-  /\ ConvWhy([BlackEv("jmh") EXCEPT !.fback = <<<<2, 0>>, <<0, 0>>, <<0, 0>>>>]) = "black-not-black",
-  (* the ratios between two colours *)
-  \A i \in MagIdx : PairWhy(PairEv(Bump(Full1, i, 30), Full2)) = "attribute-ratios" /\ PairWhy(PairEv(Full1, Bump(Full2, i, 30))) = "attribute-ratios",
-  (* UCS, clause by clause *)
-  UcsWhy([U0 EXCEPT !.ujmh = JV(Bump(FxV(@), 1, 30)), !.ujmhc = JV(Bump(FxV(@), 1, 30))]) = "ucs-lightness"
-  /\ UcsWhy([U0 EXCEPT !.ujmh = JV(Bump(FxV(@), 2, 30)), !.ujmhc = JV(Bump(FxV(@), 2, 30))]) = "ucs-colourfulness"
-  /\ UcsWhy([U0 EXCEPT !.ujmh = JV(Bump(FxV(@), 3, 30))]) = "ucs-hue-not-copied"
-  /\ UcsWhy([U0 EXCEPT !.ujmhc = JV(Bump(FxV(@), 2, 50))]) = "clamped-differs-in-bounds",
-  \A i \in 1..3 : UcsWhy([U0 EXCEPT !.ujab = JV(Bump(FxV(@), i, 30))]) = "ucs-polar"
-                  /\ UcsWhy([U0 EXCEPT !.ujabd = JV(Bump(FxV(@), i, 30))]) = "ucs-polar"
-                  /\ UcsWhy([U0 EXCEPT !.ujmhb = JV(Bump(FxV(@), i, 30))]) \in {"ucs-polar"},
-  UcsWhy([U0 EXCEPT !.jmhb = JV(Bump(FxV(@), 1, 30))]) = "ucs-lightness-inverse"
-  /\ UcsWhy([U0 EXCEPT !.jmhd = JV(Bump(FxV(@), 1, 30))]) = "ucs-lightness-inverse"
-  /\ UcsWhy([U0 EXCEPT !.jmhb = JV(Bump(FxV(@), 2, 30))]) = "ucs-colourfulness-inverse"
-  /\ UcsWhy([U0 EXCEPT !.jmhd = JV(Bump(FxV(@), 2, 30))]) = "ucs-colourfulness-inverse"
-  /\ UcsWhy([U0 EXCEPT !.jmhb = JV(Bump(FxV(@), 3, 30))]) = "ucs-round-trip",
-  (* the UCS constants: 0.0288 instead of 0.0228, 0.07 instead of 0.007 *)
-  UcsMBits(FxInt(39), FxDiv(FxLn(FxAdd(FxOne, FxMul(FxRat(288, 10000), FxInt(39)))), FxRat(288, 10000))) < 10
-  /\ UcsJBits(FxInt(45), FxDiv(FxMul(C17, FxInt(45)), FxAdd(FxOne, FxMul(FxRat(7, 100), FxInt(45))))) < 5,
-  (* the domain: sRGB primaries, white and a dark grey have non-negative cone responses; a colour with one slightly
-     negative response is in the collar; negative luminance and a strongly negative response are outside *)
-  /\ InDomain(V3(FxRat(4124, 10000), FxRat(2126, 10000), FxRat(193, 10000))) /\ InDomain(V3(FxRat(3576, 10000), FxRat(7152, 10000), FxRat(1192, 10000)))
-  /\ InDomain(V3(FxRat(1805, 10000), FxRat(722, 10000), FxRat(9505, 10000))) /\ InDomain(WhiteD65) /\ InDomain(V3(FxRat(1, 1000), FxRat(1, 1000), FxRat(1, 1000)))
-  /\ ~InCollar(WhiteD65)
-  /\ InCollar(V3(FxRat(3, 10), FxRat(3, 10), FxRat(-1, 100))) /\ ~InDomain(V3(FxRat(3, 10), FxRat(3, 10), FxRat(-1, 10)))
-  /\ ~InDomain(V3(FxRat(-1, 10), FxRat(-1, 10), FxRat(-1, 10))) /\ ~InDomain(V3(FxRat(103, 1000), FxRat(-208, 10000), FxRat(936, 1000)))
-  /\ ~InDomain(V3(FxEps(40), FxEps(40), FxEps(40)))
->>
+NJudge == 22
+JudgeCase(n) ==
+  CASE n = 1 ->  (* the published definitions give exactly the attribute vectors used below *)
+       /\ PubJ(FxRat(1, 2)) = Full1[1] /\ PubC(FxRat(1, 2), FxInt(64)) = Full1[2] /\ Near(PubQ(PJ, FxRat(1, 2)), Full1[4], 95)
+       /\ PubM(PJ, FxRat(1, 2), FxInt(64)) = Full1[5] /\ Near(PubS2(PJ, FxRat(1, 2), FxInt(64)), FxSqr(Full1[6]), 80)
+       /\ PubJ(FxRat(1, 4)) = Full2[1] /\ PubC(FxRat(1, 4), FxInt(16)) = Full2[2] /\ Near(PubQ(PJ, FxRat(1, 4)), Full2[4], 95)
+       /\ PubM(PJ, FxRat(1, 4), FxInt(16)) = Full2[5] /\ Near(PubS2(PJ, FxRat(1, 4), FxInt(16)), FxSqr(Full2[6]), 80)
+       /\ PubJ(FxOne) = FullW[1] /\ PubC(FxOne, FxInt(64)) = FullW[2] /\ Near(PubQ(PJ, FxOne), FullW[4], 95)
+       /\ PubM(PJ, FxOne, FxInt(64)) = FullW[5] /\ Near(PubS2(PJ, FxOne, FxInt(64)), FxSqr(FullW[6]), 80)
+    [] n = 2 ->  (* accepted *)
+       \A k \in DOMAIN Kinds : ConvWhy(ConvEv(Kinds[k], X1, Full1)) = "ok" /\ ConvWhy(ConvEv(Kinds[k], X2, Full2)) = "ok"
+                               /\ ConvJudged(ConvEv(Kinds[k], X1, Full1))
+    [] n = 3 -> \A k \in DOMAIN Kinds : ConvWhy(BlackEv(Kinds[k])) = "ok"
+    [] n = 4 -> PairWhy(PairEv(Full1, Full2)) = "ok" /\ PairJudged(PairEv(Full1, Full2))
+    [] n = 5 -> UcsWhy(U0) = "ok" /\ UcsJudged(U0) /\ UcsWhy(UcsEv(FxZero, FxZero, FxInt(10))) = "ok"
+                /\ UcsWhy(UcsEv(FxInt(100), FxInt(120), FxInt(359))) = "ok"
+    [] n = 6 ->  (* rejected, clause by clause *)
+       \A k \in DOMAIN Kinds : \A i \in 1..3 :
+          /\ ConvWhy([ConvEv(Kinds[k], X1, Full1) EXCEPT !.fback = JV(Bump(X1, i, 30))]) = "full-round-trip"
+          /\ ConvWhy([ConvEv(Kinds[k], X1, Full1) EXCEPT !.pback = JV(Bump(X1, i, 30))]) = "partial-round-trip"
+    [] n = 7 ->
+       \A k \in DOMAIN Kinds : \A i \in 1..2 :
+          /\ ConvWhy([ConvEv(Kinds[k], X1, Full1) EXCEPT !.proj = JV(Bump(FxV(@), i, 50))]) = "projection-not-exact"
+          /\ ConvWhy([ConvEv(Kinds[k], X1, Full1) EXCEPT !.part = JV(Bump(FxV(@), i, 30))]) = "from-xyz-differs-from-projection"
+    [] n = 8 ->  (* a partial type reading the wrong attribute: the projection of another kind *)
+       \A k \in DOMAIN Kinds : \A k2 \in DOMAIN Kinds :
+          k # k2 => ConvWhy([ConvEv(Kinds[k], X1, Full1) EXCEPT !.proj = Project(JV(Full1), Kinds[k2])]) = "projection-not-exact"
+    [] n = 9 -> \A i \in MagIdx : ConvWhy([ConvEv("jch", X1, Full1) EXCEPT !.exp = JV(Bump(Full1, i, 30))]) = "into-full-differs-from-full"
+    [] n = 10 -> (* hue 201 is not hue 200; hue 200 and -160 are the same direction *)
+       /\ ConvWhy([ConvEv("jch", X1, Full1) EXCEPT !.exp = JV([Full1 EXCEPT ![3] = FxInt(201)])]) = "into-full-differs-from-full"
+       /\ ConvWhy([ConvEv("jch", X1, Full1) EXCEPT !.exp = JV([Full1 EXCEPT ![3] = FxInt(-160)])]) = "ok"
+    [] n = 11 -> (* saturation not 100 sqrt(M/Q): e.g. computed with a wrong parameter *)
+       ConvWhy(ConvEv("jsh", X1, Bump(Full1, 6, 30))) = "saturation-link"
+    [] n = 12 -> ConvWhy([ConvEv("jch", X1, Full1) EXCEPT !.w = 1]) = "white-not-100"
+                 /\ ConvWhy([ConvEv("jch", X1, FullW) EXCEPT !.w = 1]) = "ok"
+    [] n = 13 -> ConvWhy([ConvEv("qmh", X1, Full1) EXCEPT !.panic = 1]) = "panic"
+                 /\ ConvWhy([ConvEv("qmh", X1, Full1) EXCEPT !.pback = <<<<2, 0>>, <<1, 0, 1>>, <<1, 0, 1>>>>]) = "non-finite"
+                 /\ ConvWhy([ConvEv("qmh", X1, Full1) EXCEPT !.full = [@ EXCEPT ![2] = <<2, 0>>]]) = "non-finite"
+    [] n = 14 -> (* black: an attribute, or a returned component, that is not exactly zero *)
+       \A i \in MagIdx : ConvWhy([BlackEv("qsh") EXCEPT !.full = [@ EXCEPT ![i] = JOfFx(FxEps(90))]]) = "black-not-black"
+    [] n = 15 -> ConvWhy([BlackEv("jmh") EXCEPT !.pback = JV(V3(FxZero, FxEps(90), FxZero))]) = "black-not-black"
+                 /\ ConvWhy([BlackEv("jmh") EXCEPT !.fback = <<<<2, 0>>, <<0, 0>>, <<0, 0>>>>]) = "black-not-black"
+    [] n = 16 -> (* the ratios between two colours *)
+       \A i \in MagIdx : PairWhy(PairEv(Bump(Full1, i, 30), Full2)) = "attribute-ratios"
+                         /\ PairWhy(PairEv(Full1, Bump(Full2, i, 30))) = "attribute-ratios"
+    [] n = 17 -> (* UCS, clause by clause *)
+       /\ UcsWhy([U0 EXCEPT !.ujmh = JV(Bump(FxV(@), 1, 30)), !.ujmhc = JV(Bump(FxV(@), 1, 30))]) = "ucs-lightness"
+       /\ UcsWhy([U0 EXCEPT !.ujmh = JV(Bump(FxV(@), 2, 30)), !.ujmhc = JV(Bump(FxV(@), 2, 30))]) = "ucs-colourfulness"
+       /\ UcsWhy([U0 EXCEPT !.ujmh = JV(Bump(FxV(@), 3, 30))]) = "ucs-hue-not-copied"
+       /\ UcsWhy([U0 EXCEPT !.ujmhc = JV(Bump(FxV(@), 2, 50))]) = "clamped-differs-in-bounds"
+    [] n = 18 -> \A i \in 1..3 : UcsWhy([U0 EXCEPT !.ujab = JV(Bump(FxV(@), i, 30))]) = "ucs-polar"
+                                 /\ UcsWhy([U0 EXCEPT !.ujabd = JV(Bump(FxV(@), i, 30))]) = "ucs-polar"
+                                 /\ UcsWhy([U0 EXCEPT !.ujmhb = JV(Bump(FxV(@), i, 30))]) = "ucs-polar"
+    [] n = 19 -> /\ UcsWhy([U0 EXCEPT !.jmhb = JV(Bump(FxV(@), 1, 30))]) = "ucs-lightness-inverse"
+                 /\ UcsWhy([U0 EXCEPT !.jmhd = JV(Bump(FxV(@), 1, 30))]) = "ucs-lightness-inverse"
+                 /\ UcsWhy([U0 EXCEPT !.jmhb = JV(Bump(FxV(@), 2, 30))]) = "ucs-colourfulness-inverse"
+                 /\ UcsWhy([U0 EXCEPT !.jmhd = JV(Bump(FxV(@), 2, 30))]) = "ucs-colourfulness-inverse"
+                 /\ UcsWhy([U0 EXCEPT !.jmhb = JV(Bump(FxV(@), 3, 30))]) = "ucs-round-trip"
+    [] n = 20 -> (* the UCS constants: 0.0288 instead of 0.0228, 0.07 instead of 0.007 *)
+       /\ UcsMBits(FxInt(39), FxDiv(FxLn(FxAdd(FxOne, FxMul(FxRat(288, 10000), FxInt(39)))), FxRat(288, 10000))) < 10
+       /\ UcsJBits(FxInt(45), FxDiv(FxMul(C17, FxInt(45)), FxAdd(FxOne, FxMul(FxRat(7, 100), FxInt(45))))) < 5
+    [] n = 21 -> (* the domain: sRGB primaries, white and a dark grey have non-negative cone responses ... *)
+       /\ InDomain(V3(FxRat(4124, 10000), FxRat(2126, 10000), FxRat(193, 10000))) /\ InDomain(V3(FxRat(3576, 10000), FxRat(7152, 10000), FxRat(1192, 10000)))
+       /\ InDomain(V3(FxRat(1805, 10000), FxRat(722, 10000), FxRat(9505, 10000))) /\ InDomain(WhiteD65)
+       /\ InDomain(V3(FxRat(1, 1000), FxRat(1, 1000), FxRat(1, 1000))) /\ ~InCollar(WhiteD65)
+    [] n = 22 -> (* ... a colour with one slightly negative response is in the collar; negative luminance, a strongly negative
+                    response, two negative responses and magnitudes below 2^-34 are outside *)
+       /\ InCollar(V3(FxRat(3, 10), FxRat(3, 10), FxRat(-2, 100))) /\ ~InDomain(V3(FxRat(3, 10), FxRat(3, 10), FxRat(-1, 10)))
+       /\ ~InDomain(V3(FxRat(-1, 10), FxRat(-1, 10), FxRat(-1, 10))) /\ ~InDomain(V3(FxRat(103, 1000), FxRat(-208, 10000), FxRat(936, 1000)))
+       /\ ~InDomain(V3(FxEps(40), FxEps(40), FxEps(40)))
 
 Cases == LatCases
          \cup {<<"ucsj", n>> : n \in 0..240} \cup {<<"ucsm", n>> : n \in 0..300} \cup {<<"polar", n>> : n \in 0..72}
          \cup {<<"series", n>> : n \in DOMAIN SeriesCases} \cup {<<"attr", n>> : n \in 0..26}
-         \cup {<<"judge", n>> : n \in DOMAIN JudgeCases}
+         \cup {<<"judge", n>> : n \in 1..NJudge}
 
 Init == case \in Cases
 Next == UNCHANGED case
@@ -213,7 +220,7 @@ CaseHolds(c) == CASE c[1] = "lat" -> Valid(LA[c[2]], YB[c[3]], SUR[c[4]], DISC[c
                   [] c[1] = "polar" -> PolarCase(c[2])
                   [] c[1] = "series" -> SeriesCases[c[2]]
                   [] c[1] = "attr" -> AttrCase(c[2])
-                  [] c[1] = "judge" -> JudgeCases[c[2]]
+                  [] c[1] = "judge" -> JudgeCase(c[2])
 Holds == CaseHolds(case) \/ (PrintT(<<"case fails", case>>) /\ FALSE)
 (* one JSON line per lattice case *)
 EmitDone == (Emit /\ case[1] = "lat") => PrintT(<<"REPLAY", ToJson(LatLine(case))>>)
